@@ -26,9 +26,11 @@ RULE = (
     "bounds) / helix / twisted-cubic analytic curves in random frames. Parameters are drawn uniformly, at the bounds and "
     "at the parameters of defining points, in either order. Queries are a curve point plus an offset of <= 5 % of the "
     "local point spacing (near) or 0.5-3 curve lengths (far, counted only). References are written in the harness: "
-    "chord-length / uniform break parameters, linear interpolation, closed-form analytic curves, dense sampling (2001 "
-    "samples + the library's own 15 scan parameters) with golden-section refinement. Edge cell: one Loft with one "
-    "OnCurve edge in any of the 12 edge positions, written and parsed by vf.foamdict. Non-trivial: spacing ratio > 2 "
+    "chord-length / uniform break parameters, linear interpolation, closed-form analytic curves, dense sampling (>= 801 "
+    "parameters, refined until neighbouring samples are <= 1/1500 of the curve length apart) with golden-section "
+    "refinement of local minima. Edge cell: one Loft with one OnCurve edge in any of the 12 edge positions, written and "
+    "parsed by vf.foamdict; then 0-2 times the two vertices are moved (vertex.move_to) to other points of the curve, the "
+    "other six corners are jiggled, and the same mesh is written and judged again. Non-trivial: spacing ratio > 2 "
     "(point curves) and the two parameters not both at the bounds; distinct = distinct generated case."
 )
 ASSUMPTIONS = [
@@ -39,19 +41,14 @@ ASSUMPTIONS = [
     "spline / analytic lengths are inscribed-polyline approximations in the library: asserted two-sided "
     "len(a,b) <= len(a,m)+len(m,b) <= dense arc length (1e-5 relative slack; the harness' dense vertex set contains "
     "every parameter the library can use); analytic curves with total turning <= 4 pi must be additive to 2e-3",
-    "closest parameter: |P(t*)-q| <= dense minimum + 1e-3 of the curve length (twice the spacing of the 2001 dense "
-    "samples; accuracy below the sampling resolution is not claimed by the statement), asserted for near queries only; "
-    "measured over 16 000 near queries with a converged minimiser: excess <= 6.4e-6 L (>= 150x margin)",
-    "a closest-parameter miss is tagged 'closest-wrong-basin' when the best of the library's 15 scan parameters lies "
-    "in a basin of the distance profile whose local minimum is worse than the global one (root cause of F25), "
-    "otherwise 'closest-not-minimal'; the fact matches_pinned_algorithm (the harness repeats scan + scipy L-BFGS-B as "
-    "the pinned tree does and reaches the same parameter) separates F26 from a refinement that is wrong for another "
-    "reason",
+    "closest parameter: |P(t*)-q| <= minimum over the dense samples + 3e-6 of the curve length, asserted for near "
+    "queries only; converged answers of the library are within 2.7e-8 L (sqrt(eps) accuracy of scipy's bounded scalar "
+    "search; measured over 18 000 near queries), so the margin is 100x",
     "LineCurve / CircleCurve follow their documented parametrisation (p1 + t (p2 - p1); the rim point rotated by t about "
     "the normal, right-handed): the harness' closed forms stand for them when sampling densely",
-    "edge cell: vertices are placed on the curve; an edge whose vertex the library's closest-parameter query does not "
-    "find (F25, F26: judged in the closest cells) is excluded (counted); written coordinates carry 8 decimals: tolerance "
-    "1e-6 L + 2e-8",
+    "edge cell: vertices are placed on the curve at points it passes exactly once (else the edge is not judged: "
+    "counted); the library's closest-parameter query must find them (same oracle as the closest cells); written "
+    "coordinates carry 8 decimals: tolerance 1e-6 L + 2e-8; Edge.length of piecewise-linear curves to 1e-7 L",
 ]
 
 TWO_PI = 2 * math.pi
